@@ -77,7 +77,7 @@ type unwrapReq struct {
 }
 
 var unwrapReqs = []unwrapReq{
-	{types.HexToHashPanic("00000000000000000000000000000000000000000000000000000000000c1001"), 3, 1, 5000},
+	{types.HexToHashPanic("00000000000000000000000000000000000000000000000000000000000c1001"), 70003, 1, 5000}, // a log index that needs more than 16 bits
 	{types.HexToHashPanic("00000000000000000000000000000000000000000000000000000000000c1002"), 0, 2, 700},
 	{types.HexToHashPanic("00000000000000000000000000000000000000000000000000000000000c10ff"), 9, 3, 100}, // never requested
 }
